@@ -24,6 +24,7 @@ type vfC03Case struct {
 	ClientTF     *vfTF
 	Handler      int // 0 none, 1 returns not populated, 2 publishes then Populated, 3 error, 4 Populated without publishing
 	HandlerTags  map[string]string
+	LateDup      int                 // >0: while the subscribe is parked after its read, PUB/SUB re-delivers the LateDup-th newest retained publication (a late / duplicated delivery)
 	Window       []map[string]string // tags of publications issued while the subscribe is parked right after its first history read (no handler)
 }
 
@@ -36,8 +37,8 @@ func (c vfC03Case) String() string {
 	for i, t := range c.Window {
 		win[i] = vfTagsStr(t)
 	}
-	return fmt.Sprintf("ttl=%ds meta=%ds limit=%d ops=[%s] sub{mode=%d proto=%s offPick=%d epochKind=%d serverTF=%s clientTF=%s cacheEmptyHandler=%d handlerTags=%s} windowPubs=[%s]",
-		c.TTL, c.MetaTTL, c.Limit, strings.Join(ops, " "), c.Mode, c.Proto, c.OffPick, c.EpochKind, c.ServerTF, c.ClientTF, c.Handler, vfTagsStr(c.HandlerTags), strings.Join(win, " "))
+	return fmt.Sprintf("ttl=%ds meta=%ds limit=%d ops=[%s] sub{mode=%d proto=%s offPick=%d epochKind=%d serverTF=%s clientTF=%s cacheEmptyHandler=%d handlerTags=%s} lateDup=%d windowPubs=[%s]",
+		c.TTL, c.MetaTTL, c.Limit, strings.Join(ops, " "), c.Mode, c.Proto, c.OffPick, c.EpochKind, c.ServerTF, c.ClientTF, c.Handler, vfTagsStr(c.HandlerTags), c.LateDup, strings.Join(win, " "))
 }
 
 func vfC03Gen(rt *rapid.T) vfC03Case {
@@ -69,9 +70,10 @@ func vfC03Gen(rt *rapid.T) vfC03Case {
 	c.Handler = rapid.SampledFrom([]int{0, 0, 1, 2, 2, 3, 4}).Draw(rt, "handler")
 	c.HandlerTags = vfTagsGen(rt, "htags")
 	if c.Handler == 0 && rapid.IntRange(0, 1).Draw(rt, "window") == 0 {
-		for i, n := 0, rapid.IntRange(1, 3).Draw(rt, "windowPubs"); i < n; i++ {
+		for i, n := 0, rapid.IntRange(0, 3).Draw(rt, "windowPubs"); i < n; i++ {
 			c.Window = append(c.Window, vfTagsGen(rt, "wtags"))
 		}
+		c.LateDup = rapid.SampledFrom([]int{0, 1, 1, 2, 3}).Draw(rt, "lateDup")
 	}
 	return c
 }
@@ -182,7 +184,8 @@ func vfC03Run(t *testing.T, cs vfC03Case, out *vfC03Out, isKnown func(string) bo
 		newestAtRead := len(m.retained) > 0
 		var window []vfC02ModelPub
 		windowEpochChange := false
-		gateOn := len(cs.Window) > 0
+		gateOn := len(cs.Window) > 0 || cs.LateDup > 0
+		lateDelivered := false
 		w.broker.Hook = func(op, phase, hch string) error {
 			if gateOn && op == "history" && phase == "after" && hch == ch {
 				w.Gates.Pass("history")
@@ -199,6 +202,18 @@ func vfC03Run(t *testing.T, cs vfC03Case, out *vfC03Out, isKnown func(string) bo
 			go func() { defer close(done); f() }()
 			vfSettle()
 			if w.Gates.Waiting("history") > 0 {
+				if n := len(m.retained); cs.LateDup > 0 && n > 0 && curEpoch != "" {
+					// a late or duplicated PUB/SUB delivery of something the cache read already covers
+					i := n - cs.LateDup
+					if i < 0 {
+						i = 0
+					}
+					lp := m.retained[i]
+					_ = w.node.HandlePublication(ch, &Publication{Offset: lp.Off, Data: []byte(lp.Data), Tags: lp.Tags, Time: time.Now().UnixMilli()},
+						StreamPosition{Offset: lp.Off, Epoch: curEpoch}, false, nil)
+					lateDelivered = true
+					vfSettle()
+				}
 				for i, tg := range cs.Window {
 					data := fmt.Sprintf(`{"w":%d}`, i)
 					pr, err := w.node.Publish(ch, []byte(data), WithHistory(5, time.Duration(cs.TTL)*time.Second, time.Duration(cs.MetaTTL)*time.Second), WithTags(tg))
@@ -257,6 +272,10 @@ func vfC03Run(t *testing.T, cs vfC03Case, out *vfC03Out, isKnown func(string) bo
 		// publications issued inside the subscribe window are buffered and merged: they take part in "newest visible",
 		// while recovered= was decided at the history read
 		holdsAtRead := withPos && reqOffset > 0 && reqOffset == m.top && reqEpoch == curEpoch
+		if lateDelivered {
+			out.labels = append(out.labels, "late_duplicate_delivery_inside_subscribe_window")
+			out.nontrivial = true
+		}
 		if len(window) > 0 {
 			out.labels = append(out.labels, "publications_inside_subscribe_window")
 			out.nontrivial = true
